@@ -35,7 +35,8 @@ CHECK, MANIFEST = srvgen.make_check(
      "none, never a panic, for every octet string, both transports, every EDNS size in [512, 65535], every key set and every catalog "
      "whose Loaded entries are zones built by Zone::new + Zone::add over arbitrary record lists (RDATA <= 65535 octets, 16-bit "
      "types: what the Rust types enforce). Covered: the Reader, compressed-name parsing, OPT/TSIG RDATA validation, the complete "
-     "pre-scan with the Writer's size arithmetic, the opcode/QTYPE/catalog dispatch (first wave, c01_no_panic_partial), and now, "
+     "pre-scan with the Writer's size arithmetic, the opcode/QTYPE/catalog dispatch (first wave, c01_no_panic_partial), and now "
+     "the serialisation of EVERY response that does not carry a TSIG (header, echoed question, EDNS, extended RCODE, finish) and, "
      "for a clean QUERY without TSIG — answered from a Loaded zone, or with NOTIMP/REFUSED/SERVFAIL — ALL of the response side at the octet level: every zone lookup of the tree model (C06), "
      "every RDATA name parse, the CNAME chase with PreviousOwners, referrals and glue, additional-section processing, the error "
      "mapping, and every Writer operation issued (add_*_rr / add_*_rrset with Hint::Qname / MostRecentOwner / "
@@ -43,7 +44,7 @@ CHECK, MANIFEST = srvgen.make_check(
      "the key lemma (Proofs/ComposeKeyP.v) that query.rs only issues operations with well-formed arguments that obey the Writer's "
      "hint contract, so that C12's c12_ops_never_panic applies to each. STILL PARAMETERS (universally quantified, not covered): "
      "HMAC verification (its totality on the TSIG model is C11's c11_verify_total) and query answering for a request whose TSIG "
-     "verified (the Writer model has no signing TSIG mode; the response is then the abstract one of the first wave). Not modelled "
+     "verified; any response carrying a TSIG stays the abstract one of the first wave (the Writer model has no signing TSIG mode). Not modelled "
      "at all: AXFR (NOTIMP in this version), the socket loops and thread pool (C27-C30), zone-file loading (C15-C19, C31). The "
      "four panics/defects of the pinned tree on this path were repaired by fix: commits and are kept as refuted witnesses. The "
      "correspondence run feeds mutated, truncated and random requests to the real server and requires a non-panicking outcome "
